@@ -25,6 +25,7 @@ RULE = (
     'L}; per axis every voxel k: coordinates k/n, k/n+-1e-6, (k+1/2)/n, plus 0 and 1-1e-16, other axes generic; '
     '3-D products on grids with unequal axes (every voxel, multiplicity pattern); round trip for every index of '
     'every grid size <= 2048 (argument arrays unchanged); slab cells with 300 voxels on one axis; 2^20+64 samples; source in position or displacement mode; evaluation = one probed coordinate; distinct = distinct (shape, histogram) outcomes'
+    '; an earlier volume re-read after a later one on the same grid; all histories of length 4 (thorough 5) over {0, 0.99, 0.01, 0.98, 0.5} through a cell face, volume taken in displacement mode'
 )
 LEVEL_TEXT = (
     'Bounded-exhaustive over the cell/resolution alphabet and EVERY voxel edge and centre of every '
